@@ -18,7 +18,7 @@ fi
 if [ "$(du -sm /verif/.cache/go-build 2>/dev/null | cut -f1)" -gt 8000 ] 2>/dev/null; then GOCACHE=/verif/.cache/go-build GOFLAGS= go clean -cache; fi
 if [ "$(du -sm /root/.cache/go-build 2>/dev/null | cut -f1)" -gt 8000 ] 2>/dev/null; then GOFLAGS= go clean -cache; fi
 mkdir -p "$VD"
-rsync -a --exclude .cache --exclude evidence --exclude replays --exclude .git /verif/ "$VD/"
+rsync -a --exclude .cache --exclude evidence --exclude replays --exclude .git "${VERIF_SRC:-/verif}/" "$VD/"
 export VERIF_DIR=$VD VERIF_REPO=$WT GOCACHE=/verif/.cache/go-build
 "$VD/check" "$PROP" "$TIER"
 rc=$?
